@@ -165,15 +165,17 @@ std::unique_ptr<NodeResult> ArithmeticOperationNode::evaluate(PSC::Context &ctx)
             right = integer.value;
         }
 
+        const PSC::EnumTypeDefinition &definition = enumVal.getDefinition(ctx);
+        PSC::int_t enumSize = (PSC::int_t) definition.values.size();
+        left %= enumSize;
+        right %= enumSize;
+
         PSC::int_t res;
         if (token.type == TokenType::PLUS) {
             res = left + right;
         } else {
             res = left - right;
         }
-
-        const PSC::EnumTypeDefinition &definition = enumVal.getDefinition(ctx);
-        std::size_t enumSize = definition.values.size();
         res %= enumSize;
         if (res < 0) res += enumSize;
 
